@@ -275,3 +275,106 @@ def c16(seed, tier):
                              "impl": "compile error", "model": "accepted"})
     stats["samples"] += [v[1] for v in list(expect.values())[:3]]
     return viol, stats
+
+
+# ---------------------------------------------------------------------------------------------
+# C17
+
+DUMP = r'''
+use bio_seq::codec::Codec as CodecTrait;
+fn dump<E: CodecTrait + std::panic::RefUnwindSafe + 'static>(i: usize) {
+    std::panic::set_hook(Box::new(|_| {}));
+    let hex = |o: Option<E>| match o { Some(s) => format!("{:02x}", s.to_bits()), None => "--".to_string() };
+    let tfb: String = (0..=255u8).map(|b| hex(E::try_from_bits(b))).collect();
+    let tfa: String = (0..=255u8).map(|b| hex(E::try_from_ascii(b))).collect();
+    let ufb: String = (0..=255u8).map(|b| match std::panic::catch_unwind(move || E::unsafe_from_bits(b)) { Ok(s) => format!("{:02x}", s.to_bits()), Err(_) => "--".to_string() }).collect();
+    let ufa: String = (0..=255u8).map(|b| match std::panic::catch_unwind(move || E::unsafe_from_ascii(b)) { Ok(s) => format!("{:02x}", s.to_bits()), Err(_) => "--".to_string() }).collect();
+    let items: String = E::items().map(|s| format!("{:02x}", s.to_bits())).collect();
+    let chars: Vec<String> = E::items().map(|s| format!("{:02x}:{:02x}", s.to_bits(), s.to_char() as u32)).collect();
+    // sequences over the derived codec obey the round-trip law
+    let text: String = E::items().chain(E::items()).chain(E::items()).map(|s| s.to_char()).collect();
+    let rt = match Seq::<E>::try_from(text.as_str()) {
+        Ok(s) => s.to_string() == text && s.len() == text.chars().count() && E::items().chain(E::items()).chain(E::items()).zip(s.iter()).all(|(a, b)| a == b),
+        Err(_) => false,
+    };
+    println!("{i} w={} items={items} tfb={tfb} tfa={tfa} chars={} |{}|{}|{rt}", E::BITS, chars.join(","), ufb == tfb, ufa == tfa);
+}
+'''
+
+
+def harness(profile, lines):
+    p = subprocess.run([os.path.join(TARGET, profile, "harness"), "eval"], input="\n".join(lines) + "\n", capture_output=True, text=True, env=ENV, timeout=600)
+    return p.stdout.split("\n")[:len(lines)]
+
+
+def c17(seed, tier):
+    import gen_ops
+    r = random.Random(seed + 17)
+    viol = []
+    stats = {"programs": 0, "declarations": 0, "rejected_declarations": 0, "samples": []}
+    decls = [gen_ops.rand_decl(r, "wf") for _ in range(40 if tier == "quick" else 300)]
+    decls += ["- 2 A d0 - 0 B d255 - 0", "8 2 A d0 - 0 B d255 - 0", "- 2 A d0 - 0 B d1 - 0"]
+    srcs = harness("debug", ["dna declsrc " + d for d in decls])
+    body = [HELPERS, DUMP]
+    for i, (d, s) in enumerate(zip(decls, srcs)):
+        assert s.startswith("ok "), s
+        body.append(f"mod m{i} {{ use bio_seq::prelude::*; use bio_seq::codec::Codec; #[derive(Clone, Copy, Debug, PartialEq, Eq, Hash, Codec)] {s[3:]} }}")
+    body.append("fn main() {")
+    for i in range(len(decls)):
+        body.append(f"    dump::<m{i}::E>({i});")
+    body.append("}")
+    d = write_crate("c17_valid", "\n".join(body) + "\n")
+    for prof in ("debug", "release"):
+        out, err = build_run(d, "c17_valid", prof)
+        stats["programs"] += 1
+        if out is None:
+            viol.append({"kind": "program-build", "profile": prof, "detail": err[-3000:], "found": False,
+                         "name": "generated crate of well-formed derive(Codec) enums no longer compiles"})
+            continue
+        got = {}
+        for l in out.splitlines():
+            parts = l.split(" ", 1)
+            if parts[0].isdigit():
+                got[int(parts[0])] = parts[1]
+        model = driver(prof, ["dna derive " + x for x in decls])
+        for i, (dd, m) in enumerate(zip(decls, model)):
+            stats["declarations"] += 1
+            g = got.get(i)
+            if g is None:
+                viol.append({"kind": "decl-missing", "profile": prof, "declaration": srcs[i][3:], "impl": None, "model": m, "found": True})
+                continue
+            main, flags = g.split(" |", 1)
+            if "ok " + main != m:
+                viol.append({"kind": "derived-impl-differs", "profile": prof, "declaration": srcs[i][3:], "impl": main[:400], "model": m[:400], "found": True})
+            elif flags != "true|true|true":
+                viol.append({"kind": "derived-impl-law", "profile": prof, "declaration": srcs[i][3:], "impl": "unsafe_from_bits==try|unsafe_from_ascii==try|roundtrip = " + flags, "model": "true|true|true", "found": True})
+    stats["samples"] = [s[3:] for s in srcs[:2]]
+    # --- compile-fail layer
+    bad = []
+    for kind in ("smallwidth", "nodisc", "nonint", "bigdisc"):
+        bad += [gen_ops.rand_decl(r, kind) for _ in range(6 if tier == "quick" else 40)]
+    ctrl = [gen_ops.rand_decl(r, "wf") for _ in range(5)]
+    alld = bad + ctrl
+    srcs2 = harness("debug", ["dna declsrc " + x for x in alld])
+    model = driver("debug", ["dna derive " + x for x in alld])
+    src = ["#![allow(unused)]", "use bio_seq::prelude::*;", "use bio_seq::codec::Codec;"]
+    expect = {}
+    for i, (s_, m) in enumerate(zip(srcs2, model)):
+        src.append(f"mod m{i} {{ use bio_seq::codec::Codec; #[derive(Clone, Copy, Debug, PartialEq, Eq, Hash, Codec)] {s_[3:]} }}")
+        expect[len(src)] = (not m.startswith("ok w="), s_[3:])
+    src.append("#[derive(Clone, Copy, Debug, PartialEq, Eq, Hash, Codec)] struct NotAnEnum(u8);")
+    expect[len(src)] = (True, "struct NotAnEnum(u8)")
+    src.append("fn main() {}")
+    d = write_crate("c17_fail", "\n".join(src) + "\n")
+    for prof in ("debug", "release"):
+        errs, other, rc = build_errors(d, prof)
+        stats["programs"] += 1
+        for line, (must_fail, text) in expect.items():
+            stats["rejected_declarations"] += 1 if must_fail else 0
+            if must_fail and line not in errs:
+                viol.append({"kind": "malformed-declaration-compiles", "profile": prof, "declaration": text, "found": True,
+                             "impl": "no compile error on this line", "model": "derive error"})
+            if not must_fail and line in errs:
+                viol.append({"kind": "wellformed-declaration-rejected", "profile": prof, "declaration": text, "found": True,
+                             "impl": "compile error", "model": "accepted"})
+    return viol, stats
